@@ -49,6 +49,8 @@ class Template:  # pylint: disable=too-few-public-methods
         self.error = None  # class-level reason
         self.type_uid = None
         self.notes = {}
+        self.pre = {}  # attr -> canonical value shown by the getter just before the first close
+        self.reopen_differs = {}  # attr -> text: the value before the first close is not what the re-opened entity shows
 
 
 def _try_get(ent, attr):
@@ -109,6 +111,10 @@ def _build_template(target, directory, no_base) -> Template:  # pylint: disable=
                         setattr(ent, attr, W.materialise(base, ws))
                     except Exception as exc:  # pylint: disable=broad-except
                         tpl.notes[attr] = f"initial value refused: {type(exc).__name__}: {exc}"
+            for attr in target["attrs"]:
+                ok, cur = _try_get(ent, attr)
+                if ok:
+                    tpl.pre[attr] = W.canon(W.normalise(target["cls"], attr, cur))
         except W.Skip as exc:
             tpl.error = str(exc)
         except Exception as exc:  # pylint: disable=broad-except
@@ -131,6 +137,10 @@ def _build_template(target, directory, no_base) -> Template:  # pylint: disable=
                 if not ok:
                     tpl.skipped[attr] = f"getter raises {type(cur).__name__}: {cur}"
                     continue
+                post = W.canon(W.normalise(target["cls"], attr, cur))
+                if attr in tpl.pre and not W.same(tpl.pre[attr], post):
+                    tpl.reopen_differs[attr] = (f"before the first close the getter shows {W.short(tpl.pre[attr], 70)}, the "
+                                                f"re-opened entity shows {W.short(post, 70)}")
                 try:
                     vals, base = W.domain(fx, ent, attr, cur)
                 except W.Skip as exc:
@@ -188,9 +198,9 @@ def census(target):
         tpl = template(target)
     except Exception as exc:  # pylint: disable=broad-except
         return {"target": W.target_name(target), "error": f"harness: {type(exc).__name__}: {exc}\n{traceback.format_exc()}",
-                "attrs": [], "skipped": {}, "notes": {}}
+                "attrs": [], "skipped": {}, "notes": {}, "reopen_differs": {}}
     return {"target": W.target_name(target), "error": tpl.error, "attrs": sorted(tpl.values),
-            "skipped": tpl.skipped, "notes": tpl.notes,
+            "skipped": tpl.skipped, "notes": tpl.notes, "reopen_differs": tpl.reopen_differs,
             "values": {a: [W.short(x, 60) for x in v] for a, v in tpl.values.items()},
             "two_valued": sorted(a for a, v in tpl.values.items() if W.same(W.canon(v[0]), W.canon(v[2])))}
 
